@@ -3,6 +3,7 @@ use std::cell::{Cell, RefCell};
 use std::io::{self, Write};
 use std::panic::UnwindSafe;
 use std::process::abort;
+use std::sync::Mutex;
 use std::sync::atomic::{AtomicBool, Ordering};
 
 /// Describes the fallback behavior when
@@ -130,6 +131,15 @@ fn record_backtrace(info: &std::panic::PanicHookInfo<'_>, bt: &mut String) {
 
 /// Registers panic catcher panic hook.
 pub fn panic_catcher_set_hook() {
+    // Checking the flag, swapping the hook and setting the flag must not
+    // interleave with another thread doing the same, or one of the two
+    // closures (and the previously installed hook it chains to) is lost.
+    static INSTALL_LOCK: Mutex<()> = Mutex::new(());
+
+    if PANIC_CATCHER_HOOK_SET.load(Ordering::SeqCst) {
+        return;
+    }
+    let _guard = INSTALL_LOCK.lock().unwrap_or_else(|e| e.into_inner());
     if PANIC_CATCHER_HOOK_SET.load(Ordering::SeqCst) {
         return;
     }
